@@ -23,6 +23,11 @@ INVARIANT C14_SmoothWithinHull
 INVARIANT C14_SmoothInteriorIsWindowMean
 INVARIANT C14_SmoothLinear
 INVARIANT C14_SmoothSupport
+INVARIANT C14_SmoothScales
+INVARIANT C14_FormIndependent
+INVARIANT C14_MedianScales
+INVARIANT C14_RunMed1Scales
+INVARIANT C14_RunMed2Scales
 INVARIANT C14_MedianTwoPhrasings
 INVARIANT C14_MedianIsAnElement
 INVARIANT C14_MedianEvenFlag
@@ -52,4 +57,5 @@ INVARIANT C14_BlockMeanPreservesMean
 INVARIANT C14_RebinAxesCommute
 INVARIANT C14_RebinLinear
 INVARIANT C14_RebinWeightsArePartition
+INVARIANT C14_RebinScales
 INVARIANT C14_RebinRejects
